@@ -42,6 +42,10 @@ def main(tier, replay):
                 continue
             if i % 3 == 1:
                 tank_pump(rnd, s)
+            if i % 5 == 2:
+                for nd in s["nodes"]:
+                    if nd["type"] == "T":
+                        nd["late_elev"] = True       # elevation assigned after the tank was created
             scns.append(s)
     good = hyd.validate(ck, "C06", scns, props)
     for s, rows in good:
